@@ -102,3 +102,133 @@ Proof.
       (fun _ _ _ => eq_refl) n (Datatypes.S index) r' [Z.of_nat (Datatypes.S index)] (repeat 0 n) Er (repeat_length _ _)) as Hl.
     cbn [length app] in Hl. rewrite Hl; [reflexivity|discriminate|reflexivity].
 Qed.
+
+(* ---------- get_levels_tree_from_i ---------- *)
+Lemma Zgtb_true' a b : b < a -> (a >? b) = true.
+Proof. intro H. rewrite Z.gtb_ltb. apply Z.ltb_lt. lia. Qed.
+Lemma Zgtb_false' a b : a <= b -> (a >? b) = false.
+Proof. intro H. rewrite Z.gtb_ltb. apply Z.ltb_ge. lia. Qed.
+(* the two Python stacks (top at the END of the list) against the model's one stack of pairs (top at the head);
+   the code keeps the parent's level d and adds 1 on use, the model keeps d+1 *)
+Definition sZ (st : list (nat * nat)) : list Z := rev (map (fun p => Z.of_nat (fst p)) st).
+Definition dZ (st : list (nat * nat)) : list Z := rev (map (fun p => Z.of_nat (snd p) - 1) st).
+
+Lemma getZ_last (l : list Z) x : getZ (l ++ [x]) (-1) = x.
+Proof.
+  unfold getZ, pyidx, zlen. replace (-1 <? 0) with true by reflexivity.
+  rewrite app_length. simpl length. replace (Z.to_nat (-1 + Z.of_nat (length l + 1))) with (length l) by lia.
+  rewrite app_nth2 by lia. now rewrite Nat.sub_diag.
+Qed.
+Lemma setA_last (l : list Z) x y : setA (l ++ [x]) (-1) y = l ++ [y].
+Proof.
+  unfold setA, pyidx, zlen. replace (-1 <? 0) with true by reflexivity.
+  rewrite app_length. simpl length. replace (Z.to_nat (-1 + Z.of_nat (length l + 1))) with (length l) by lia.
+  now rewrite upd_app_r.
+Qed.
+
+Definition levels_body (n_arg : Z) (st : list Z * Z * list Z * list Z) : (list Z * Z * list Z * list Z) * bool :=
+  let '(s, d_i, d, result_list) := st in
+    let s := setA s (- 1) ((getZ s (- 1)) - 1) in
+    let '(s, d_i, d) := (if ((getZ s (- 1)) =? 0) then (
+        let s := removelast s in
+        let p_1 := last d 0 in
+        let d := removelast d in
+        let d_i := (p_1 + 1) in
+        (s, d_i, d))
+      else (
+        let d_i := ((getZ d (- 1)) + 1) in
+        (s, d_i, d))) in
+    let result_list := (result_list ++ [d_i]) in
+    let '(s, d) := (if (n_arg >? 0) then (
+        let s := (s ++ [n_arg]) in
+        let d := (d ++ [d_i]) in
+        (s, d))
+      else (
+        (s, d))) in
+    if ((zlen s) =? 0) then (
+      ((s, d_i, d, result_list), true))
+    else (
+      ((s, d_i, d, result_list), false)).
+
+Lemma zs_cons x t : zs (x :: t) = Z.of_nat x :: zs t.
+Proof. reflexivity. Qed.
+
+Definition pos_counts (st : list (nat * nat)) : Prop := Forall (fun p => (1 <= fst p)%nat) st.
+
+Lemma levels_loop_code : forall (l : list nat) (st : list (nat * nat)) (d_i : Z) (acc : list Z),
+  st <> [] -> pos_counts st ->
+  snd (for_list_brk_p_aux (zs l) levels_body (sZ st, d_i, dZ st, acc)) = acc ++ zs (levels_loop st l).
+Proof.
+  induction l as [|n l IH]; intros st d_i acc Hne Hpos.
+  - simpl. now rewrite app_nil_r.
+  - destruct st as [|[c lv] st']; [congruence|].
+    inversion Hpos as [|? ? Hc Hpos']; subst. cbn [fst] in Hc.
+    cbn [levels_loop]. rewrite !zs_cons. cbn [for_list_brk_p_aux].
+    unfold levels_body at 1. cbv zeta.
+    unfold sZ, dZ. cbn [map rev fst snd].
+    rewrite getZ_last, setA_last, getZ_last.
+    set (S' := rev (map (fun p : nat * nat => Z.of_nat (fst p)) st')).
+    set (D' := rev (map (fun p : nat * nat => Z.of_nat (snd p) - 1) st')).
+    destruct (Nat.eq_dec c 1) as [->|Hc1].
+    + (* the frame is finished: pop both stacks *)
+      replace (Z.of_nat 1 - 1 =? 0) with true by reflexivity.
+      rewrite removelast_last, last_last, removelast_last.
+      replace (Z.of_nat lv - 1 + 1) with (Z.of_nat lv) by lia.
+      destruct (0 <? n)%nat eqn:En.
+      * replace (Z.of_nat n >? 0) with true by (symmetry; apply Zgtb_true'; apply Nat.ltb_lt in En; lia).
+        replace (zlen (S' ++ [Z.of_nat n]) =? 0) with false
+          by (symmetry; apply Z.eqb_neq; unfold zlen; rewrite app_length; simpl; lia).
+        pose proof (IH ((n, Datatypes.S lv) :: st') (Z.of_nat lv) (acc ++ [Z.of_nat lv])) as H.
+        unfold sZ, dZ in H. cbn [map rev fst snd] in H. fold S' D' in H.
+        replace (Z.of_nat (Datatypes.S lv) - 1) with (Z.of_nat lv) in H by lia.
+        rewrite H; [now rewrite <- app_assoc|discriminate|].
+        constructor; [cbn [fst]; apply Nat.ltb_lt in En; lia|exact Hpos'].
+      * replace (Z.of_nat n >? 0) with false by (symmetry; apply Zgtb_false'; apply Nat.ltb_ge in En; lia).
+        destruct st' as [|p st''].
+        -- (* both stacks empty: break *)
+           subst S' D'. cbn [map rev zlen length Z.of_nat Z.eqb]. cbn [snd].
+           destruct l; reflexivity.
+        -- replace (zlen S' =? 0) with false
+             by (symmetry; apply Z.eqb_neq; unfold zlen, S'; cbn [map rev]; rewrite app_length; simpl; lia).
+           pose proof (IH (p :: st'') (Z.of_nat lv) (acc ++ [Z.of_nat lv])) as H.
+           unfold sZ, dZ in H. fold S' D' in H.
+           rewrite H; [now rewrite <- app_assoc|discriminate|exact Hpos'].
+    + (* the frame stays, with one argument fewer *)
+      replace (Z.of_nat c - 1 =? 0) with false by (symmetry; apply Z.eqb_neq; lia).
+      rewrite getZ_last.
+      replace (Z.of_nat lv - 1 + 1) with (Z.of_nat lv) by lia.
+      assert (Hst1 : match c with 1%nat => st' | _ => (c - 1, lv)%nat :: st' end = (c - 1, lv)%nat :: st').
+      { destruct c as [|[|c']]; try lia; reflexivity. }
+      rewrite Hst1.
+      replace (Z.of_nat c - 1) with (Z.of_nat (c - 1)) by lia.
+      destruct (0 <? n)%nat eqn:En.
+      * replace (Z.of_nat n >? 0) with true by (symmetry; apply Zgtb_true'; apply Nat.ltb_lt in En; lia).
+        replace (zlen ((S' ++ [Z.of_nat (c - 1)]) ++ [Z.of_nat n]) =? 0) with false
+          by (symmetry; apply Z.eqb_neq; unfold zlen; rewrite !app_length; simpl; lia).
+        pose proof (IH ((n, Datatypes.S lv) :: (c - 1, lv)%nat :: st') (Z.of_nat lv) (acc ++ [Z.of_nat lv])) as H.
+        unfold sZ, dZ in H. cbn [map rev fst snd] in H. fold S' D' in H.
+        replace (Z.of_nat (Datatypes.S lv) - 1) with (Z.of_nat lv) in H by lia.
+        rewrite H; [now rewrite <- app_assoc|discriminate|].
+        constructor; [cbn [fst]; apply Nat.ltb_lt in En; lia|]. constructor; [cbn [fst]; lia|exact Hpos'].
+      * replace (Z.of_nat n >? 0) with false by (symmetry; apply Zgtb_false'; apply Nat.ltb_ge in En; lia).
+        replace (zlen (S' ++ [Z.of_nat (c - 1)]) =? 0) with false
+          by (symmetry; apply Z.eqb_neq; unfold zlen; rewrite app_length; simpl; lia).
+        pose proof (IH ((c - 1, lv)%nat :: st') (Z.of_nat lv) (acc ++ [Z.of_nat lv])) as H.
+        unfold sZ, dZ in H. cbn [map rev fst snd] in H. fold S' D' in H.
+        rewrite H; [now rewrite <- app_assoc|discriminate|].
+        constructor; [cbn [fst]; lia|exact Hpos'].
+Qed.
+
+Lemma sliceFrom_zs a (origin : nat) : sliceFrom (zs a) (Z.of_nat origin) = zs (skipn origin a).
+Proof. unfold sliceFrom, zs. rewrite pyidx_nat. apply skipn_map. Qed.
+
+Theorem code_get_levels_tree_from_i a (origin : nat) :
+  py_get_levels_tree_from_i (Z.of_nat origin) (zs a) = zs (levels a origin).
+Proof.
+  unfold py_get_levels_tree_from_i, levels, for_list_brk_p. cbv zeta. rewrite sliceFrom_zs.
+  pose proof (levels_loop_code (skipn origin a) [(1%nat, 0%nat)] (-1) []) as H.
+  unfold sZ, dZ in H. cbn [map rev fst snd app Z.of_nat Z.sub Z.add Z.opp Z.pos_sub] in H.
+  transitivity (snd (for_list_brk_p_aux (zs (skipn origin a)) levels_body ([1], -1, [-1], []))).
+  - unfold levels_body. destruct (for_list_brk_p_aux _ _ _) as [[[s1 di1] d1] r1]. reflexivity.
+  - apply H; [discriminate|]. constructor; [cbn; lia|constructor].
+Qed.
